@@ -137,7 +137,8 @@ deriving Repr, Inhabited
 def IterSt.next (it : IterSt) : NextRes × IterSt :=
   let i := it.nextCalls
   let it' := { it with nextCalls := i + 1 }
-  if it.sc.panicAt = some i then (.panic, it')
+  -- a panicking call yields nothing: the item it would have produced stays in the iterator
+  if it.sc.panicAt = some i then (.panic, it)
   else match it.sc.items[i]? with
     | some v => (.yield v, it')
     | none => (.done, it')
@@ -224,7 +225,7 @@ def runIterCtor (m : Mem) (dbg : Bool) (which : IterCtor) (h : Option Item) (sc 
         match collectAll (sc.items.length + 1) it [] with
         | (none, it) =>
             -- the partially collected Vec is dropped (its items), then the iterator
-            .panicked (m.emit (((sc.items.take (it.nextCalls - 1)).map fun v => Event.drop v.id) ++ it.dropRest)) "scripted"
+            .panicked (m.emit (((sc.items.take it.nextCalls).map fun v => Event.drop v.id) ++ it.dropRest)) "scripted"
         | (some vs, _) =>
           match runCtor m (.fromVec vs) with
           | none => .panicked m "layout-overflow"
